@@ -438,9 +438,16 @@ class MailboxWorld:
         if kind.endswith("_from") and self.by_name(op[1]).code is None:
             self.sim.ev("op_skipped", c.name, kind)
             return "skipped"
+        late_words = self.opts.get("late_words") and \
+            kind == "choose_words_from" and c.helper is not None and \
+            getattr(c, "last_nameplate", None) is not None
+        if late_words and (c.saw_failure or c.is_closed or c.close_called):
+            # the user of an interactive prompt finishes typing the words
+            # after the wormhole closed (or failed) under them
+            self.sim.note("probe.words_entered_after_close")
         if (kind in CODE_OPS or kind in ("helper", "dilate")) and \
                 (c.saw_failure or c.is_closed or c.close_called) and \
-                not self.opts.get("ambiguous_calls"):
+                not self.opts.get("ambiguous_calls") and not late_words:
             # an application that was already told the wormhole failed does
             # not go on entering a code
             self.sim.ev("op_skipped", c.name, kind)
